@@ -44,6 +44,9 @@ pub fn types() -> Vec<MType> {
         t("date", "[0-9]{4}-[0-9]{2}-[0-9]{2}", &["2024-03-05", "1999-12-31"], &["2024-3-5", "20240305"]),
         t("anything", ".+?", &["a.b", "X~y"], &[""]),
         t("percent", r"([\p{Ll}0-9]|%[0-9A-Z]{2})+?", &["caf%C3%A9", "a%20b"], &["A", "a%2"]),
+        // expressions containing characters that mean something in a URL (quote, angle brackets of a named group)
+        t("not-quote", r#"[^"/.]+"#, &["v2", "abc"], &[""]),
+        t("named-group", r"(?P<yr>[0-9]{4})-[0-9]{2}", &["2024-05", "1999-12"], &["24-05", "2024-5"]),
     ]
 }
 
@@ -155,6 +158,8 @@ pub fn templates() -> Vec<Template> {
         Template { name: "path-two-segments-prefix-names", path: "/p/@a/q/@ab", host: None, header: None, markers: &[("a", 'p'), ("ab", 'p')] },
         Template { name: "path-two-in-one-segment", path: "/p/@ab_@a", host: None, header: None, markers: &[("ab", 'p'), ("a", 'p')] },
         Template { name: "host+path", path: "/p/@y", host: Some("@x.example.org"), header: None, markers: &[("x", 'h'), ("y", 'p')] },
+        // a marker name with upper-case letters (names are case-sensitive whatever the case mode of the router)
+        Template { name: "path-camel-case-name", path: "/p/@pId/q/@a", host: None, header: None, markers: &[("pId", 'p'), ("a", 'p')] },
         Template { name: "header+path", path: "/p/@y", host: None, header: Some(("X-Foo", "v-@x")), markers: &[("x", 'x'), ("y", 'p')] },
         Template {
             name: "host+path+header-prefix-chain",
@@ -177,7 +182,7 @@ fn value_of(types: &[MType], s: &Slot) -> (String, bool) {
 
 // references followed by a separator, by the end of the string, and directly by a name character (`@a_s`, `@y9`,
 // `@xs`): substitution is textual, whatever follows the reference
-const TARGET: &str = "/t/@abc|@ab|@a|@x|@y|@zz/end?k=@a&m=@a_s&n=@y9@xs";
+const TARGET: &str = "/t/@abc|@ab|@a|@x|@y|@zz/end?k=@a&m=@a_s&n=@y9@xs&c=@pId";
 const HEADER_VALUE: &str = "pre-@ab-@a-post@a_1";
 const TEXT_VALUE: &str = "[@a@ab]";
 const HTML_VALUE: &str = "<i>@a</i>";
@@ -421,7 +426,13 @@ pub fn cases(tier: Tier) -> Vec<Case> {
                 }
             }
         }
+        let named = types.iter().position(|t| t.name == "named-group").unwrap_or(usize::MAX);
         for assign in assignments {
+            // two markers whose expressions define the SAME named group give one pattern with a duplicate group name, which is
+            // not a regex: outside the domain (the statement speaks of expressions that accept strings)
+            if assign.iter().filter(|k| **k == named).count() > 1 {
+                continue;
+            }
             // values: all accepted combinations; rejected one slot at a time (only in anchored positions)
             let mut value_sets: Vec<Vec<usize>> = Vec::new();
             let mut cur = vec![vec![]];
